@@ -95,6 +95,17 @@ def check_case(ctx, gsw, case):
         if not close(w_def, gsw(s, font=fnum, font_size=size, unit="px", dpi=72.0) / 72.0):
             bad("defaults are not unit=in, dpi=72", w_def=w_def)
         ctx.count("relations_evaluated")
+    # the same text at a second dpi: pixels do not depend on dpi, inches/mm follow the new dpi
+    dpi2 = case.get("dpi2")
+    if dpi2:
+        w_in2 = gsw(s, font=fnum, font_size=size, unit="in", dpi=dpi2)
+        w_mm2 = gsw(s, font=fnum, font_size=size, unit="mm", dpi=dpi2)
+        w_px2 = gsw(s, font=fname, font_size=size, unit="px", dpi=dpi2)
+        if not close(w_px2, w_px):
+            bad("pixel width depends on dpi", dpi2=dpi2, w_px2=w_px2)
+        if not close(w_in2 * dpi2, w_px) or not close(w_mm2, w_in2 * 25.4):
+            bad("in/mm at a second dpi are not conversions of the pixel width", dpi2=dpi2, w_in2=w_in2, w_mm2=w_mm2)
+        ctx.count("relations_evaluated", 2)
     # monotone under appending
     c = case.get("append")
     if c:
@@ -183,6 +194,8 @@ def gen_case(rng):
         case["size2"] = rand_size(rng)
     if rng.random() < 0.1:
         case["defaults"] = True
+    if rng.random() < 0.4:
+        case["dpi2"] = rng.choice([36.0, 72.0, 96.0, 150.0, 600.0, round(rng.uniform(36, 600), 2)])
     if rng.random() < 0.15:
         case["font"] = 9
     return case
